@@ -44,6 +44,42 @@ theorem ViewSmallL_get : ∀ (fs : BL) (i : Nat) (x : B × FieldMeta), fs.get? i
     simp only [ViewSmallL] at hs
     exact ViewSmallL_get r i x h hs.2
 
+/-! ### the descriptor round trip: below 4 GiB a pushed value reads back as itself -/
+
+theorem viewBytes_packInline (buf value : Bytes) (h : value.length ≤ 12) : viewBytes buf (packInline value) = value := by
+  simp only [viewBytes, Lemmas.C03.decodeView_inline [buf] value h]
+
+theorem viewBytes_packExtern (buf value : Bytes) (hlen : 12 < value.length) (hsmall : (buf ++ value).length < 2 ^ 32) :
+    viewBytes (buf ++ value) (packExtern value 0 buf.length) = value := by
+  simp only [viewBytes, Lemmas.C03.decodeView_extern buf value hlen hsmall]
+
+/-- `push_scalar_value`: one more descriptor, the buffer possibly extended, and — while the buffer stays below
+4 GiB — the descriptor designates exactly the pushed bytes -/
+theorem viewPushValue_exact (views : List Nat) (buf value : Bytes) :
+    ∃ d extra, viewPushValue views buf value = (views ++ [d], buf ++ extra) ∧
+      (decodeView [buf ++ extra] d).isOk = true ∧
+      ((buf ++ extra).length < 2 ^ 32 → viewBytes (buf ++ extra) d = value) := by
+  unfold viewPushValue
+  split
+  · rename_i h
+    exact ⟨packInline value, [], by simp, decodeView_inline_isOk _ _ h, fun _ => viewBytes_packInline _ _ h⟩
+  · rename_i h
+    exact ⟨packExtern value 0 buf.length, value, rfl, decodeView_extern_isOk _ _,
+      fun hs => viewBytes_packExtern buf value (by omega) hs⟩
+
+/-- the row a value pushed into a bytes-view builder appends, under `ViewSmall` of the result -/
+theorem view_push_row {p : String} {ty : ViewTy} {v : Validity} {views : List Nat} {buf : Bytes}
+    (hwf : WFB (.bytesView p ty v views buf)) (value : Bytes) {d : Nat} {extra : Bytes}
+    (hok : (decodeView [buf ++ extra] d).isOk = true)
+    (hval : (buf ++ extra).length < 2 ^ 32 → viewBytes (buf ++ extra) d = value)
+    (hsm : ViewSmall (.bytesView p ty (v.map (· ++ [true])) (views ++ [d]) (buf ++ extra))) :
+    dec (.bytesView p ty (v.map (· ++ [true])) (views ++ [d]) (buf ++ extra)) =
+      dec (.bytesView p ty v views buf) ++ [bytesVal (ty == .utf8View) value] := by
+  obtain ⟨_, g2⟩ := view_step hwf true d extra hok
+  rw [rowOf_true] at g2
+  simp only [ViewSmall] at hsm
+  rw [g2, hval hsm]
+
 /-! ### placeholders and nulls (buffers are not touched) -/
 
 mutual
